@@ -26,7 +26,7 @@ Theorem C04_exchange_retires_previous_generation :
   o_err (snd res1) = "" ->
   exists k r, key_of s1 tok = Some k /\ refresh (st s1) k = Some (true, r) /\
   forall i e tampered hint scopes,
-    nth_error (log s1) i = Some e -> i_rid e = r_id r -> i_kind e <> KImplicit ->
+    nth_error (log s1) i = Some e -> i_rid e = r_id r ->
     introspect cfg (run cfg (fst res1) h2) {| p_ref := CRef i; p_tampered := tampered |} hint scopes = None.
 Proof. exact rotation_retires_old_pair. Qed.
 Print Assumptions C04_exchange_retires_previous_generation.
